@@ -345,6 +345,7 @@ class Program:
                                 aliases.setdefault(am.group(2), set()).add(am.group(1))
                 if "enum " not in s:
                     continue
+                s = re.sub(r"//[^\n]*", "", s)       # a doc comment ending in the word "enum" must not be read as a declaration
                 for m in pat.finditer(s):
                     end = _find_matching(s, m.end() - 1, "{", "}")
                     if end < 0:
